@@ -64,6 +64,53 @@ def reset_globals():
                     degraded.append(f"{mod.__name__}.{n}")
 
 
+_module_state = None
+
+
+def fresh_process_state():
+    """Put every module-level container of pygopherd.* and simpletal.* back to what it held right after import, and the known
+    configuration lazies back to unset: what a freshly started server process has.  (A memo or cache a change adds at module
+    level is emptied here too, so that a reply can be compared with the reply of a process that has served nothing yet.)"""
+    global _module_state
+    import copy
+    import types
+    mods = [m for n, m in list(sys.modules.items()) if m is not None and (n.startswith("pygopherd") or n.startswith("simpletal"))]
+    if _module_state is None:
+        _module_state = {}
+        for m in mods:
+            for k, v in list(vars(m).items()):
+                if k.startswith("__") or isinstance(v, (types.ModuleType, types.FunctionType, type)):
+                    continue
+                if isinstance(v, (dict, list, set)):
+                    try:
+                        _module_state[(m.__name__, k)] = copy.deepcopy(v)
+                    except Exception:  # noqa
+                        pass
+        return
+    for m in mods:
+        for k, v in list(vars(m).items()):
+            if k.startswith("__") or isinstance(v, (types.ModuleType, types.FunctionType, type)):
+                continue
+            if isinstance(v, (dict, list, set)):
+                if m.__name__ in ("pygopherd.logger",):
+                    continue
+                saved = _module_state.get((m.__name__, k))
+                try:
+                    if saved is None:
+                        v.clear()                      # a container that did not exist (or was not a container) at import time
+                    elif isinstance(v, dict):
+                        v.clear()
+                        v.update(copy.deepcopy(saved))
+                    elif isinstance(v, list):
+                        v[:] = copy.deepcopy(saved)
+                    else:
+                        v.clear()
+                        v.update(copy.deepcopy(saved))
+                except Exception:  # noqa
+                    pass
+    reset_globals()
+
+
 _log_lines = []
 
 
@@ -100,6 +147,8 @@ def init_once():
         os.chdir(cwd)
     _log_lines.clear()
     _mime_done = True
+    if _module_state is None:
+        fresh_process_state()       # first call: remember the state right after import and initialisation
 
 
 def make_config(root, handlers=None, **kw):
